@@ -324,6 +324,65 @@ def _r06f(rep):
 
 
 
+def _r06j(rep):
+    """The supercell-atom -> primitive-index map of the inverse transform, typed (compiled and Python routes)."""
+    from rules.c02 import _maptype
+
+    rep.rule("R06j", "inverse transform: the map that gives, for every supercell atom, the index of its primitive atom (masses, column block of D(q)) is typed S->P on both routes (p2p_map[s2p_map[k]], index-map typing); the rank of s2p_map[k] among the sorted representatives is that index only while p2s_map is ascending, which Primitive(positions_to_reorder=...) does not keep, and the forward transform uses p2p_map", 2)
+    rel = "phonopy/harmonic/dynmat_to_fc.py"
+    cls = core.find_def(rel, "DynmatToForceConstants")
+    methods = {n.name: n for n in cls.body if isinstance(n, ast.FunctionDef)}
+
+    def env_of(fn):
+        env = {}
+        for st in ast.walk(fn):
+            if isinstance(st, ast.Assign) and len(st.targets) == 1:
+                t = st.targets[0]
+                if isinstance(t, ast.Name):
+                    env.setdefault(t.id, st.value)
+                elif isinstance(t, ast.Tuple) and isinstance(st.value, ast.Call) and core.src(st.value.func) == "np.unique":
+                    for k, el in enumerate(t.elts):
+                        if isinstance(el, ast.Name):
+                            env.setdefault(el.id, ast.Subscript(value=st.value, slice=ast.Constant(value=k), ctx=ast.Load()))
+        return env
+
+    def attr_value(attr):
+        """(expression assigned to self.<attr>, environment of the assigning method)"""
+        for m in methods.values():
+            for st in ast.walk(m):
+                if isinstance(st, ast.Assign) and len(st.targets) == 1 and core.src(st.targets[0]) == f"self.{attr}":
+                    return st.value, env_of(m)
+        return None, {}
+
+    def typed(e, fn):
+        env = env_of(fn)
+        if isinstance(e, ast.Attribute) and core.src(e.value) == "self" and e.attr.lstrip("_") not in ("p2s_map", "s2p_map", "p2p_map"):
+            v, env2 = attr_value(e.attr)
+            if v is None:
+                return None
+            return _maptype(v, env2, rel)
+        return _maptype(e, env, rel)
+
+    # compiled route: the 7th argument of transform_dynmat_to_fc
+    cfn = methods.get("_c_inverse_transformation")
+    call = [c for c in ast.walk(cfn) if isinstance(c, ast.Call) and core.src(c.func).endswith("transform_dynmat_to_fc")] if cfn else []
+    if len(call) != 1 or len(call[0].args) < 8:
+        raise AnalysisError("R06j: _c_inverse_transformation no longer calls transform_dynmat_to_fc with its nine arguments")
+    got = typed(call[0].args[6], cfn)
+    # Python route: the primitive index paired with every supercell atom in the double loop
+    pfn = methods.get("_py_inverse_transformation")
+    loops = [lp for lp in ast.walk(pfn) if isinstance(lp, ast.For) and isinstance(lp.iter, ast.Call) and core.src(lp.iter.func) == "enumerate" and lp.iter.args] if pfn else []
+    inner = [lp for lp in loops if any(lp is not o and any(x is lp for x in ast.walk(o)) for o in loops)]
+    if len(inner) != 1:
+        raise AnalysisError("R06j: _py_inverse_transformation lost its loop over (supercell atom, primitive index)")
+    got_py = typed(inner[0].iter.args[0], pfn)
+    for where, fn_, g, node in (("compiled route: s2pp argument of transform_dynmat_to_fc", cfn, got, call[0]), ("Python route: enumerate(<map>) in the pair loop", pfn, got_py, inner[0])):
+        if g is None:
+            raise AnalysisError(f"R06j: cannot type the supercell-atom -> primitive-index map of the {where.split(':')[0]}")
+        rep.instance("R06j", rel, f"DynmatToForceConstants.{fn_.name}", f"{where} : {g[0]}->{g[1]}", tuple(g) == ("S", "P"),
+                     f"the map is typed {g[0]}->{g[1]}, not S->P (supercell atom -> index of its primitive atom): with a reordered primitive cell (p2s_map not ascending) the inverse transform takes the masses and the column block of D(q) of another atom than the forward transform, and force constants -> D(q) -> force constants is not the identity", line=node.lineno)
+
+
 def _r06i(rep):
     """Orientation of the supercell matrix the commensurate points are generated from (frame typing)."""
     from engine import frames
@@ -451,6 +510,7 @@ def run(rep: core.Report):
     _r06f(rep)
     _r06h(rep)
     _r06i(rep)
+    _r06j(rep)
     from rules import shared_trunc
 
     shared_trunc.run(rep, "R06g")
@@ -460,6 +520,7 @@ def selftest():
     V = []
     b = lambda name, file, old, new, rule, expect="", **kw: V.append(dict(name=name, kind="break", file=file, old=old, new=new, rule=rule, expect=expect, **kw))
     n = lambda name, file, old, new, **kw: V.append(dict(name=name, kind="neutral", file=file, old=old, new=new, **kw))
+    b("inverse transform: primitive index by rank among the sorted representatives", "phonopy/harmonic/dynmat_to_fc.py", "        s2pp = np.array([p2p[i] for i in s2p], dtype=\"int64\")", "        s2pp = np.array(np.unique(s2p, return_inverse=True)[1], dtype=\"int64\")", "R06j", "_c_inverse_transformation")
     D2F_ = "phonopy/harmonic/dynmat_to_fc.py"
     b("supercell matrix from the row-vector lattices (transposed)", D2F_, "        supercell_matrix = np.linalg.inv(self._pcell.primitive_matrix)\n", "        supercell_matrix = np.dot(self._scell.cell, np.linalg.inv(self._pcell.cell))\n", "R06i", "get_commensurate_points")
     n("supercell matrix from the column-vector lattices", D2F_, "        supercell_matrix = np.linalg.inv(self._pcell.primitive_matrix)\n", "        supercell_matrix = np.dot(np.linalg.inv(self._pcell.cell.T), self._scell.cell.T)\n")
